@@ -55,12 +55,17 @@ type histGen struct {
 	ops     []toks
 	views   []gview
 	nits    int
-	length  int // digits of the base when finite, -1 when infinite
-	withCnt bool
+	length   int // digits of the base when finite, -1 when infinite
+	withCnt  bool
+	rootBase bool // a real root / rational: only positions below 50 are modelled
+	capReads int  // when > 0: no traversal may deliver more than this many items
 }
 
 func (g *histGen) posit() int {
 	r := g.r
+	if g.rootBase {
+		return r.Pick([]int{MinInt, -1, 0, 0, 1, 2, 3, 5, 7, 10, 20, 30, 45})
+	}
 	L := g.length
 	cands := []int{-1, 0, 1, 2, 98, 99, 100, 101, 102, 198, 199, 200, 201, 250}
 	if L >= 0 {
@@ -145,7 +150,7 @@ func (g *histGen) read() {
 		g.add("AT", itoa(i), itoa(g.safePosit(v.term())))
 	case 3, 4:
 		kinds := []string{"F", "F", "F"}
-		if v.term() {
+		if v.term() && (g.capReads == 0 || v.hi <= 50) {
 			kinds = append(kinds, "B", "B")
 			if g.ver == "v1" {
 				kinds = append(kinds, "R1")
@@ -171,7 +176,11 @@ func (g *histGen) read() {
 			return
 		}
 		id := r.Intn(g.nits)
-		for n := r.Pick([]int{1, 1, 2, 3, 7, 101}); n > 0; n-- {
+		pulls := r.Pick([]int{1, 1, 2, 3, 7, 101})
+		if g.capReads > 0 {
+			pulls = r.Pick([]int{1, 2})
+		}
+		for n := pulls; n > 0; n-- {
 			g.add("NX", itoa(id))
 		}
 	case 9, 10:
@@ -184,14 +193,19 @@ func (g *histGen) read() {
 		if k < 0 && !v.term() {
 			k = 120
 		}
+		if g.capReads > 0 && (k > 10 || (k < 0 && v.hi > 50)) {
+			k = r.Pick([]int{0, 1, 2, 5, 10})
+		}
 		g.add("RUN", itoa(i), ks, itoa(k))
 	default:
-		if v.term() {
+		if v.term() && (g.capReads == 0 || v.hi <= 50) {
 			if g.ver == "v1" && r.Bool() {
 				g.add("ND", itoa(i))
 			} else {
 				g.add("STR", itoa(i))
 			}
+		} else if g.capReads > 0 {
+			g.add("RUN", itoa(i), "V", itoa(r.Range(0, 10)))
 		} else {
 			g.add("RUN", itoa(i), "V", itoa(r.Range(0, 130)))
 		}
@@ -241,13 +255,38 @@ func genHist(profile string, n int, r *Rng, emit func(Case)) {
 		if profile == "count" {
 			kind = "G"
 		}
+		if (profile == "type" || profile == "read") && r.Intn(4) == 0 {
+			// real constructors: rationals (terminating and not), square and cube roots
+			kind = []string{"Q", "Q", "S", "C"}[r.Intn(4)]
+			num := r.Range(1, 400)
+			den := r.Pick([]int{1, 2, 4, 5, 8, 10, 16, 25, 100, 1000, 3, 7, 9, 11, 13})
+			if kind != "Q" {
+				s := r.Range(1, 60)
+				num, den = s*s, r.Pick([]int{1, 4, 25, 100, 9})
+				if kind == "C" {
+					num, den = s*s*s, r.Pick([]int{1, 8, 1000, 27})
+				}
+				if r.Bool() {
+					num++
+				}
+			}
+			raw, rep = []int{num, den}, nil
+			g.length = -1
+			g.rootBase = true
+		}
 		// a finite test number is bounded by construction (finite type in v3); a generator-backed one never is,
 		// although its traversals to the end terminate when its digit string is finite
 		g.views = []gview{{hi: MaxInt, tfin: g.length >= 0 && kind == "T", isNum: true}}
+		if g.rootBase {
+			g.capReads = 40
+		}
 		if g.length >= 0 {
 			g.views[0].hi = g.length
 		}
 		nops := r.Range(4, 40)
+		if g.rootBase {
+			nops = r.Range(3, 10)
+		}
 		for k := 0; k < nops; k++ {
 			derive := 2
 			if profile == "chain" || profile == "type" {
